@@ -5,13 +5,14 @@ import Req.Client.Backoff
 import Req.Client.RetryDyn
 import Req.Client.Exchange
 import Req.Client.Backoff64
+import Req.Client.RetryKinds
 /-!
 Driver lanes of C10.
 
 `c10run <variant> <clientOps> <reqOps> <conds> <hooks> <after> <script> <backoffObs>
         <c.cookies> <c.headers> <c.form> <c.query> <c.allowGet>
         <method> <url> <cookies> <headers> <form> <ordered> <query> <multipart> <files> <body>
-        <resend> <ivx> <rawQuery> <pathParams> <c.pathParams> <c.baseURL> <c.scheme> <setCookies> <dumpObs> <traceObs> <bodyObs>`
+        <resend> <ivx> <rawQuery> <pathParams> <c.pathParams> <c.baseURL> <c.scheme> <setCookies> <dumpObs> <traceObs> <bodyObs> <pre>`
 (`<dumpObs>`/`<traceObs>`: `1` the lane observes the dump / trace of the returned response, else `-`)
 (`<url>` is a template: `a<origin>|<segs>` absolute, `s<authority>|<segs>` without scheme, `r|<segs>`
 relative; `<segs>` = `l<hex>` literal / `p<hex>` `{placeholder}`, comma separated; `<setCookies>` =
@@ -160,6 +161,10 @@ inductive HookAct
   | addCookie (n v : Bytes)
   | setQuery (k v : Bytes)
   | setBody (b : Bytes)
+  /-- `SetBody(io.Reader)` while the call is in flight: the body KIND changes (round 5) -/
+  | setReader (b : Bytes)
+  /-- `SetFileReader("hp", "h.txt", <reader that cannot be rewound>)` while the call is in flight -/
+  | addStream (b : Bytes)
 
 def HookAct.apply (a : HookAct) (_ : Obs) (st : ReqState) : ReqState :=
   match a with
@@ -168,6 +173,9 @@ def HookAct.apply (a : HookAct) (_ : Obs) (st : ReqState) : ReqState :=
   | .addCookie n v => { st with cookies := st.cookies ++ [(n, v)] }
   | .setQuery k v => { st with query := put st.query k [v] }
   | .setBody b => { st with body := .bytes b }
+  | .setReader b => { st with body := .reader b false }
+  | .addStream b =>
+    { st with multipart := true, files := st.files ++ [⟨ofStr "hp", ofStr "h.txt", [], .stream b false⟩] }
 
 def decHook (s : String) : Option HookAct :=
   let rest := dropS s 1
@@ -177,6 +185,21 @@ def decHook (s : String) : Option HookAct :=
   | "K" => (decPair rest).map fun p => .addCookie p.1 p.2
   | "Q" => (decPair rest).map fun p => .setQuery p.1 p.2
   | "B" => (decodeHex rest).map .setBody
+  | "R" => (decodeHex rest).map .setReader
+  | "F" => (decodeHex rest).map .addStream
+  | _ => none
+
+/-- `-` or `R<hex>@<j>` / `F<hex>@<j>`: the caller's `OnBeforeRequest` middleware (it runs before the
+built-in ones) changes the body kind when it sees attempt number `j`. -/
+def decPre (s : String) : Option (Nat → ReqState → ReqState) :=
+  if s == "-" then some fun _ st => st else
+  match s.splitOn "@" with
+  | [a, j] => do
+    let act ← decHook a
+    let j ← j.toNat?
+    match act with
+    | .setReader _ | .addStream _ => pure fun ra st => if ra == j then act.apply ⟨ra, .absent, none⟩ st else st
+    | _ => none
   | _ => none
 
 structure HookStub where
@@ -205,6 +228,7 @@ def decOutcome (s : String) : Option Outcome :=
   | "e" => if rest == "" then some .beforeErr else none
   | "D" => if rest == "" then some .deadlineCtx else none
   | "L" => rest.toNat?.map .lateCancel
+  | "T" => if rest == "" then some .lateTransport else none
   | _ => none
 
 def decScript (s : String) : Option (List Outcome) := (splitList "," s).mapM decOutcome
@@ -219,6 +243,8 @@ def decFile (s : String) : Option FileUp :=
       | "s" => some (FileSrc.seeker content false)
       | "r" => some (FileSrc.stream content false)
       | "o" => some (FileSrc.closer content false)
+      | "k" => some (FileSrc.shared content true false)
+      | "q" => some (FileSrc.shared content false false)
       | _ => none
     pure ⟨← decodeHex p, ← decodeHex n, ← decodeHex ct, src⟩
   | _ => none
@@ -467,7 +493,7 @@ def laneRun (showWire : Bool) : List String → String
   | v :: cops :: rops :: conds :: hooks :: after :: script :: bobs ::
      [cck, chd, cfm, cq, cag,
      method, url, ck, hd, fm, ord, q, mp, files, body, resend, ivx,
-     rawq, pp, cpp, cbase, cscheme, sets, dumpObs, traceObs, bodyObs] =>
+     rawq, pp, cpp, cbase, cscheme, sets, dumpObs, traceObs, bodyObs, pre] =>
     let r : Option String := do
       let v ← decVariant v
       let ro := effective (← decSetters cops) (← decSetters rops)
@@ -487,7 +513,9 @@ def laneRun (showWire : Bool) : List String → String
         ← decPairs ck, ← decMulti hd, ← decMulti fm,
         ← decPairs ord, ← decMulti q, ← decBool mp, ← decFiles files, ← decBody body⟩
       let sets ← decSets sets
-      let sends := dsends v p ed (mw v cfg) (unreplayable v) resend script 0 st (dynOf p)
+      let pre ← decPre pre
+      -- the caller's middleware first, then the built-in chain
+      let sends := dsends v p ed (fun ra s => mw v cfg ra (pre ra s)) (unreplayable v) resend script 0 st (dynOf p)
       pure (" ".intercalate (encSends showWire sets script dumpObs traceObs bodyObs sends bobs 0))
     r.getD "bad-op"
   | _ => "bad-op"
@@ -601,7 +629,29 @@ def laneBackoff64 : List String → String
     r.getD "bad-op"
   | _ => "bad-op"
 
+/-- `c10kind <cause> <ctx> <code>` → the script symbol of `Att.outcome`, whether an error of that
+cause matches `context.DeadlineExceeded` / `context.Canceled` under `errors.Is`, coherence. -/
+def laneKind : List String → String
+  | [cause, ctx, code] =>
+    let r : Option String := do
+      let cause ← match cause with
+        | "none" => some Req.RetryKinds.Cause.none | "transport" => some .transport
+        | "clientTimeout" => some .clientTimeout | "netTimeout" => some .netTimeout
+        | "ctxDeadline" => some .ctxDeadline | "ctxCanceled" => some .ctxCanceled | _ => none
+      let ctx ← match ctx with
+        | "alive" => some Req.RetryKinds.Ctx.alive | "canceled" => some .canceled | "expired" => some .expired | _ => none
+      let a : Req.RetryKinds.Att := ⟨cause, ← code.toNat?, ctx⟩
+      let sym ← match a.outcome with
+        | .status c => some ("s" ++ toString c) | .lateCancel c => some ("L" ++ toString c)
+        | .cancelled => some "c" | .transportErr => some "t" | .lateTransport => some "T"
+        | .deadline => some "d" | .deadlineCtx => some "D" | _ => none
+      let b (x : Bool) : String := if x then "1" else "0"
+      pure (sym ++ " dl=" ++ b cause.isDeadlineExceeded ++ " cn=" ++ b cause.isCanceled ++ " coh=" ++ b a.coherent)
+    r.getD "bad-op"
+  | _ => "bad-op"
+
 def lanes : List (String × (List String → String)) := [
+  ("c10kind", laneKind),
   ("c10half", laneHalf64),
   ("c10backoff64", laneBackoff64),
   ("c10inner", laneInner),
